@@ -97,10 +97,19 @@ class Signal(np.lib.mixins.NDArrayOperatorsMixin):
         self.meta = meta
 
     def __array_ufunc__(self, ufunc, method, *inputs, out=None, **kwargs):
-        if method != "__call__" or ufunc == np.matmul:
+        if method != "__call__" or ufunc.signature is not None:
+            # Reductions, outer products, matmul and other generalized ufuncs
+            # do not act sample by sample.
             return NotImplemented
 
         in_arr = tuple((i.data if isinstance(i, Signal) else i) for i in inputs)
+
+        if isinstance(kwargs.get("where"), Signal):
+            kwargs["where"] = kwargs["where"].data
+
+        # New results are labelled like the first signal among the operands
+        # (NumPy may have dispatched to a later one of a more derived class).
+        first = next((i for i in inputs if isinstance(i, Signal)), self)
 
         if out is None:
             out = (None,) * ufunc.nout
@@ -116,7 +125,7 @@ class Signal(np.lib.mixins.NDArrayOperatorsMixin):
             results = (results,)
 
         results = tuple(
-            (type(self).like(self, a) if b is None else b) for a, b in zip(results, out)
+            (type(first).like(first, a) if b is None else b) for a, b in zip(results, out)
         )
 
         return results[0] if len(results) == 1 else results
